@@ -363,8 +363,7 @@ func (self *Core) runInstruction(instruction compiler.Instruction) *value.VmInte
 
 		switch l.Kind() {
 		case value.IntValueKind:
-			res := math.Pow(float64(l.(value.ValueInt).Inner), float64(r.(value.ValueInt).Inner))
-			self.push(value.NewValueInt(int64(res)))
+			self.push(value.NewValueInt(intPow(l.(value.ValueInt).Inner, r.(value.ValueInt).Inner)))
 		case value.FloatValueKind:
 			self.push(value.NewValueFloat(math.Pow(l.(value.ValueFloat).Inner, r.(value.ValueFloat).Inner)))
 		default:
@@ -709,4 +708,23 @@ func (self *Core) runInstruction(instruction compiler.Instruction) *value.VmInte
 
 	self.callFrame().InstructionPointer++
 	return nil
+}
+
+// Integer power. A non-negative exponent is computed in integers: exact as long as the result fits into 64 bits
+// (a float64 only holds 53 of them: 7 ** 22 was off by 239) and wrapping around like `*` beyond that.
+func intPow(base int64, exponent int64) int64 {
+	if exponent < 0 {
+		return int64(math.Pow(float64(base), float64(exponent)))
+	}
+
+	result := int64(1)
+	for exponent > 0 {
+		if exponent&1 == 1 {
+			result *= base
+		}
+		base *= base
+		exponent >>= 1
+	}
+
+	return result
 }
